@@ -224,6 +224,64 @@ func judgeWalk(r *rep.Reporter, kind, form string, paginating bool, live []strin
 	}
 }
 
+// c04SelfConsistent walks the listing with every page size and compares the
+// concatenation with what the same server answers without pagination.
+func c04SelfConsistent(r *rep.Reporter, s *drv.Server, kind, bucket string, live []string, d string, ctx func() interface{}) {
+	for _, p := range []string{"", "a", "b", "a" + d} {
+		if d != "" && strings.HasPrefix(p, d) {
+			continue
+		}
+		for _, v2 := range []bool{false, true} {
+			form := "v1"
+			if v2 {
+				form = "v2"
+			}
+			base := walkList(s, bucket, p, d, v2, 1000, "", false, 3)
+			if base.problem != "" || len(base.pages) != 1 {
+				r.Violation(sig("C04", backendClass(kind), "unpaginated-listing-failed", delimClass(d)), fmt.Sprintf("%s %s prefix=%q delim=%q: %s", kind, form, p, d, base.problem), map[string]interface{}{"live_keys": live, "pages": base.pages})
+				return
+			}
+			n := len(base.keys) + len(base.pfx)
+			for m := 1; m <= n+1; m++ {
+				r.Eval(1)
+				r.Count("self_consistency_walks", 1)
+				w := walkList(s, bucket, p, d, v2, m, "", false, n+2)
+				r.Distinct(fmt.Sprintf("%s|selfcons|%v|%s|%s|%d|%s", kind, live, p, d, m, form))
+				wit := map[string]interface{}{"backend": kind, "form": form, "live_keys": live, "prefix": p, "delimiter": d, "max_keys": m, "pages": w.pages,
+					"unpaginated_keys": base.keys, "unpaginated_prefixes": base.pfx, "context": ctx()}
+				trig := delimClass(d) + ",key-ends-with-delimiter"
+				switch {
+				case w.problem != "":
+					r.Violation(sig("C04", backendClass(kind), w.anom, trig), fmt.Sprintf("%s %s prefix=%q delim=%q max-keys=%d: %s", kind, form, p, d, m, w.problem), wit)
+					return
+				case !eqStrings(w.keys, base.keys):
+					anom := "keys-mismatch"
+					if len(w.keys) < len(base.keys) {
+						anom = "key-skipped"
+					}
+					r.Violation(sig("C04", backendClass(kind), anom, trig), fmt.Sprintf("%s %s prefix=%q delim=%q max-keys=%d: pages give keys %q, the unpaginated listing %q", kind, form, p, d, m, w.keys, base.keys), wit)
+					return
+				case !eqStrings(sortedCopy(w.pfx), sortedCopy(base.pfx)):
+					anom := "prefixes-mismatch"
+					if len(w.pfx) < len(base.pfx) {
+						anom = "prefix-skipped"
+					} else if len(w.pfx) > len(base.pfx) {
+						anom = "prefix-repeated"
+					}
+					r.Violation(sig("C04", backendClass(kind), anom, trig), fmt.Sprintf("%s %s prefix=%q delim=%q max-keys=%d: pages give common prefixes %q, the unpaginated listing %q", kind, form, p, d, m, w.pfx, base.pfx), wit)
+					return
+				}
+				for i, pg := range w.pages {
+					if len(pg.Keys)+len(pg.Prefixes) > m {
+						r.Violation(sig("C04", backendClass(kind), "page-too-large", trig), fmt.Sprintf("%s %s prefix=%q delim=%q max-keys=%d: page %d has %d entries", kind, form, p, d, m, i, len(pg.Keys)+len(pg.Prefixes)), wit)
+						return
+					}
+				}
+			}
+		}
+	}
+}
+
 type c04Set struct {
 	keys    []string
 	deleted []string // keys put then deleted (delete markers on a versioned bucket)
@@ -231,7 +289,7 @@ type c04Set struct {
 
 func runC04(c *Ctx) {
 	r := c.R
-	r.SetRule("content sets (structured + random, 1..8 live keys over {a,b,/}, some with delete-marked keys) x every prefix up to length 2 (+ rich ones) x delimiters {none,'/','b'} x every max-keys 1..n+1 x V1/V2, plus marker/start-after values present, absent, inside a common prefix, before the first and beyond the last key; mem must paginate exactly, bolt/fs may answer with the complete listing (or 501 with the unimplemented-page option); distinct = (backend, content set, prefix, delimiter, max-keys, form, marker)")
+	r.SetRule("content sets (structured + random, 1..8 live keys over {a,b,/}, some with delete-marked keys) x every prefix up to length 2 (+ rich ones) x delimiters {none,'/','b'} x every max-keys 1..n+1 x V1/V2, plus marker/start-after values present, absent, inside a common prefix, before the first and beyond the last key; content sets in which a key ends with the delimiter (outside C03's key domain) are walked with every page size and compared with the server's own unpaginated answer; mem must paginate exactly, bolt/fs may answer with the complete listing (or 501 with the unimplemented-page option); distinct = (backend, content set, prefix, delimiter, max-keys, form, marker)")
 	r.Exhaustive(true)
 	var baseKeys []string
 	for _, k := range stringsOver("ab/", 1, 3) {
@@ -253,6 +311,10 @@ func runC04(c *Ctx) {
 		// keys whose base64 form contains the characters in which the standard and the URL alphabet differ
 		c04Set{keys: []string{"a~~~", "a~~~?", "a>>>", "a???", "ab"}},
 		c04Set{keys: []string{"a/~~~", "a/~~?", "a/>>>", "b~~~"}},
+		// a key that is itself the common prefix of another key (delimiter 'b')
+		c04Set{keys: []string{"ab", "aba"}},
+		c04Set{keys: []string{"a", "ab", "aba", "abab", "b/a"}},
+		c04Set{keys: []string{"a/b", "a/ba", "a/bab", "aa"}},
 	)
 	nsets := r.Pick(60, 4000)
 	for len(sets) < nsets {
@@ -374,6 +436,18 @@ func runC04(c *Ctx) {
 				}
 			}
 			if !inDomain {
+				// Some key ends (or starts) with the delimiter: C03 leaves open how such a key is
+				// split between Contents and CommonPrefixes, but pagination still has to agree
+				// with the server's own unpaginated listing, page by page.
+				startsWith := false
+				for _, k := range live {
+					if strings.HasPrefix(k, d) {
+						startsWith = true // leading delimiters are trimmed by the matcher: not a listing anyone can walk meaningfully
+					}
+				}
+				if j.t.paginating && !j.t.unimpl && !startsWith {
+					c04SelfConsistent(r, s, j.t.kind, bucket, live, d, ctx)
+				}
 				continue
 			}
 			for _, p := range prefixes {
